@@ -41,13 +41,13 @@ def handle : List Sx → String
 the model is abstract: the reported run must be the run of SOME clock, namely the one that is past the limit
 exactly at iteration `K2` (for TimeLimitExceeded) or never (for the other outcomes). -/
 def handleTimed : List Sx → String
-  | [pre, .atom "PANIC", _, _, _, _, _] =>
+  | [pre, .atom "PANIC", _, _, _, _, _, _] =>
     match decState pre with
     | some _ => "no MISMATCH model= (no panic) PROPFAIL C01 implementation panicked PROPFAIL C02 run panicked"
     | none => "bad state"
-  | [pre, .atom oc, post, k2, el, lim, nid] =>
-    match decState pre, decState post, decInt k2, decNat el, decNat lim, decNat nid with
-    | some pre, some post, some k2, some el, some lim, some nid =>
+  | [pre, .atom oc, post, k2, el, lim, nid, late] =>
+    match decState pre, decState post, decInt k2, decNat el, decNat lim, decNat nid, decNat late with
+    | some pre, some post, some k2, some el, some lim, some nid, some late =>
       let pre := { pre with nextId := nid }
       let k2 : Int := k2.toInt
       let L : Int := pre.cfg.evalPushLimit.toInt
@@ -59,7 +59,9 @@ def handleTimed : List Sx → String
       let mm := if outcomeStr mo == oc && mk == k && encState ms == encState post then ""
         else " MISMATCH model= " ++ outcomeStr mo ++ " " ++ toString mk ++ " " ++ encState ms
       let pf :=
-        if oc == "timeLimit" && el < lim * 1000 then
+        if late > lim * 1000 + 60000 then
+          " PROPFAIL C02 a step was started " ++ toString late ++ " us after run() began although the wall-clock limit of " ++ toString lim ++ " ms had passed (outcome " ++ oc ++ ")"
+        else if oc == "timeLimit" && el < lim * 1000 then
           " PROPFAIL C02 TimeLimitExceeded after " ++ toString el ++ " us, before the limit of " ++ toString lim ++ " ms had passed"
         else if oc == "timeLimit" && (k2 > L) then " PROPFAIL C02 TimeLimitExceeded after the step budget was used up"
         else if oc != "timeLimit" && lim == 0 then " PROPFAIL C02 a run with a time limit of 0 ms reported " ++ oc
@@ -67,7 +69,7 @@ def handleTimed : List Sx → String
           " PROPFAIL C02 " ++ oc ++ " although the run took " ++ toString el ++ " us under a limit of " ++ toString lim ++ " ms"
         else ""
       if mm == "" && pf == "" then (if k > 0 then "ok N" else "ok T") else "no" ++ mm ++ pf
-    | _, _, _, _, _, _ => "bad state"
+    | _, _, _, _, _, _, _ => "bad state"
   | _ => "bad shape"
 
 end RunDrv
